@@ -15,6 +15,8 @@
 //!                                        solve_energy_consumption as Some(eng). ConsistSimulation::solve_step always
 //!                                        passes Some(true), so only the API pass can command the engines off: a case
 //!                                        with an engine-off step has no walk pass.
+//!  "lim":bool                            optional, default true: false = Consist::set_assert_limits(false) (limit checking
+//!                                        off in the consist and in every unit), in both passes
 //!  "walk":bool                           optional, default false: second pass through ConsistSimulation::walk
 //!  "negpub":bool                         optional, default false: go on when a unit publishes a NEGATIVE traction
 //!                                        limit (battery unit whose discharge limit is below its aux load, i.e. at its
@@ -115,6 +117,8 @@ fn materialise(cls: &str, s: &ConsistState) -> f64 {
         "fullm" => om - DELTA,
         "fullp" => om + DELTA,
         "half" => om / 2.0,
+        "over" => om + om / 8.0, // far above the published consist limit: only a consist without limit checking takes these
+        "dbl" => 2.0 * om,
         "rev" => rv,
         "revm" => rv - DELTA,
         "revp" => rv + DELTA,
@@ -259,7 +263,11 @@ fn exec(desc: &Value, tr: &mut Tracer) -> anyhow::Result<()> {
     };
     let all_on = engs.iter().all(|x| *x);
     let negpub = desc.get("negpub").and_then(|x| x.as_bool()).unwrap_or(false);
+    let lim = desc.get("lim").and_then(|x| x.as_bool()).unwrap_or(true);
     let mut c = build::consist(&pars, pdct, None)?;
+    if !lim {
+        c.set_assert_limits(false);
+    }
     let mut accepted: Vec<(f64, f64)> = vec![];
     // ---- pass 1: the public API, call by call (ConsistSimulation::solve_step + step)
     for (k, cls) in steps.iter().enumerate() {
@@ -323,7 +331,11 @@ fn exec(desc: &Value, tr: &mut Tracer) -> anyhow::Result<()> {
         }
         let n = time.len();
         let pt = PowerTrace::new(time, pwr, vec![Some(true); n]);
-        let mut sim = ConsistSimulation::new(build::consist(&pars, pdct, Some(1))?, pt, Some(1));
+        let mut cw = build::consist(&pars, pdct, Some(1))?;
+        if !lim {
+            cw.set_assert_limits(false);
+        }
+        let mut sim = ConsistSimulation::new(cw, pt, Some(1));
         tr.emit(json!({"ev":"Pass","via":"walk"}));
         let r = sim.walk();
         let done = sim.loco_con.history.len().saturating_sub(1);
@@ -409,6 +421,16 @@ fn gen(seed: u64, n: usize, tier: &str) -> Vec<Value> {
             dts.push(*r.pick(&[1i64, 2, 2, 4]));
         }
         let pdct = if r.chance(1, 2) { "RESGreedy" } else { "Proportional" };
+        // every fifth case: limit checking off (Consist::set_assert_limits(false)), with demands far above the published
+        // consist limit mixed in (that is where the mode differs)
+        let nolim = k % 5 == 2;
+        if nolim {
+            for s in steps.iter_mut() {
+                if r.chance(1, 3) {
+                    *s = *r.pick(&["over", "dbl", "fullp", "full", "dynp"]);
+                }
+            }
+        }
         // every fourth case: engines commanded off (engine_on = Some(false)) on most braking / coasting steps -
         // dynamic braking does not need the engine; only a direct caller of the Consist API can do this
         let offcase = k % 4 == 3;
@@ -419,6 +441,9 @@ fn gen(seed: u64, n: usize, tier: &str) -> Vec<Value> {
             "units":units,"steps":steps,"dts":dts,"walk":true});
         if engs.iter().any(|x| !*x) {
             d["engs"] = json!(engs);
+        }
+        if nolim {
+            d["lim"] = json!(false);
         }
         out.push(d);
     }
